@@ -12,6 +12,7 @@ ids are what the reference works with; names are only labels given to the
 library objects.
 """
 import copy
+import enum
 import random
 
 
@@ -65,9 +66,30 @@ def callform(fn, order, values, default_k=0, extra=None, rng="default"):
     return fn(*args, **kw)
 
 
+class RampFlow(str, enum.Enum):
+    """The variant names as members of a string enumeration (the usual idiom before `StrEnum`): each member IS a `str`
+    equal to the documented name - only its `str()` / `repr()` read differently."""
+
+    IN = "in"
+    OUT = "out"
+    LIMITED = "limited"
+    UNLIMITED = "unlimited"
+
+
 def fresh(s):
-    """An equal string that is not the interned literal (as if read from a configuration file)."""
-    return "".join(list(s)) if isinstance(s, str) else s
+    """An equal string that is not the interned literal (as if read from a configuration file); now and then a member of a
+    string enumeration or a NumPy string."""
+    if not isinstance(s, str):
+        return s
+    r_ = FORMS["rng"].random() if FORMS.get("rng") is not None else 1.0
+    if r_ < 0.15 and s in ("in", "out", "limited", "unlimited"):
+        FORM_STATS["variant names given as members of a string enumeration"] = FORM_STATS.get("variant names given as members of a string enumeration", 0) + 1
+        return RampFlow(s)
+    if r_ < 0.22:
+        import numpy as _np
+
+        return _np.str_(s)
+    return "".join(list(s))
 
 
 class Built:
@@ -134,10 +156,20 @@ def make_objects(M, desc, param_override=None, node_names=None):
         n: callform((node_cls if (node_cls is M.Node or FORMS["rng"].random() < 0.5) else M.Node), ORDER["named"],
                     {"name": (node_names or {}).get(n, n)}) for n in desc["nodes"]
     }
+    for n, b_ in (desc.get("node_off") or {}).items():  # user-defined node kind with its own node rule
+        from vf import userkinds as UK
+
+        nodes[n] = UK.OffRampNode((node_names or {}).get(n, n), b_)
     links = {}
     for l in desc["links"]:
         g = lambda a, l=l: po.get((l["id"], a), l[a])  # noqa: E731
         vals = dict(zip(ORDER["Link"], (l["N"], g("lam"), g("L"), g("rho_max"), g("rho_crit"), g("v_free"), g("a"), g("beta"), l["name"])))
+        if FORMS["rng"] is not None and FORMS["rng"].random() < 0.08:
+            # the segment count read from a NumPy link table (`np.ceil(length / seg).astype(int)[i]`): a NumPy integer scalar
+            import numpy as _np
+
+            vals["nb_segments"] = FORMS["rng"].choice((_np.int64, _np.int32, _np.intp))(l["N"])
+            FORM_STATS["segment counts given as NumPy integers"] = FORM_STATS.get("segment counts given as NumPy integers", 0) + 1
         if l.get("vsl") is not None:
             signs = set(l["vsl"])
             r_ = FORMS["rng"]
@@ -166,7 +198,14 @@ def make_objects(M, desc, param_override=None, node_names=None):
             links[l["id"]] = callform(UK.WorkZoneLink, ORDER["Link"], vals, 8,
                                       extra={"capacity": l.get("user_cap"), "reorder": bool(l.get("user_reorder"))})
         else:
-            links[l["id"]] = callform(_maybe_falsy(M.Link), ORDER["Link"], vals, 8)
+            if FORMS["rng"] is not None and l["N"] > 1 and FORMS["rng"].random() < 0.07:
+                # re-discretised after construction: built as ONE segment, the segment count (a plain public attribute, read
+                # at every step) raised afterwards - grid refinement of a live link
+                links[l["id"]] = callform(_maybe_falsy(M.Link), ORDER["Link"], dict(vals, nb_segments=1), 8)
+                links[l["id"]].N = l["N"]
+                FORM_STATS["links re-discretised after construction (N re-assigned)"] = FORM_STATS.get("links re-discretised after construction (N re-assigned)", 0) + 1
+            else:
+                links[l["id"]] = callform(_maybe_falsy(M.Link), ORDER["Link"], vals, 8)
     origins = {}
     for o in desc["origins"]:
         C = po.get((o["id"], "C"), o.get("C"))
